@@ -153,3 +153,51 @@ def gen_untaken_cut_program(rng):
         queries.append(['cb', [V('Q0'), V('QR')]])
     clauses += Q3
     return {'clauses': clauses, 'queries': queries, 'shape': 'untaken-cut:' + '+'.join(shape)}
+
+
+# ------------------------------------------------------------------ round 6: atoms whose names collide under a plausible mangling
+#
+# Two different atoms are different terms whatever their names look like.  A compiler (or engine) that maps atom names to identifiers,
+# dictionary keys or cache keys - escaping the characters an identifier cannot hold - is wrong exactly when its escaping is not
+# injective: 'x y' and x_20y, 'a-b' and a_b, 'A' and a ...  The programs below contain groups of such atoms (as constants, as functor
+# names of compound terms and inside lists) in positions where confusing two members of a group changes the answers.
+
+_SPECIALS = [' ', '-', '.', '+', '$', ',', '(', ')', '!', ':', '/', 'é', '\n', '%', '"']
+
+def mangling_group(rng):
+    c = rng.choice(_SPECIALS)
+    pre, post = rng.choice(['x', 'a', 'A', 'p', 'x1', 'atom', '']), rng.choice(['y', 'b', '1', 'Z', 'q'])
+    base = pre + c + post
+    o = ord(c)
+    variants = [pre + '_' + post, pre + '_%02x' % o + post, pre + '_%02X' % o + post, pre + '_%d' % o + post, pre + '_%d_' % o + post,
+                pre + '_x%02x' % o + post, pre + '_u%04x' % o + post, pre + '__' + post, pre + post, pre + c + c + post,
+                pre + '_' + c + post, pre + ' ' + post, base.lower(), base.upper(), "A_" + pre + post, pre + "_" + post + "_0"]
+    variants = [v for v in dict.fromkeys(variants) if v != base and v != '']
+    rng.shuffle(variants)
+    group = [base] + variants[:rng.choice([1, 2, 2, 3])]
+    if rng.random() < 0.3:      # also names that differ only in quoting-relevant ways
+        group.append(rng.choice(["it's", 'it_27s', 'its']))
+    return group
+
+def gen_mangled_atom_program(rng):
+    g = mangling_group(rng)
+    at = [A(n) for n in g]
+    clauses = [['k', [a], ['true']] for a in at]
+    # as functor names of compound terms, and in lists
+    clauses += [['z', [F(n, A('i%d' % i))], ['true']] for i, n in enumerate(g)]
+    clauses.append(['l', [['list', list(at)]], ['true']])
+    clauses.append(['same', [V('X'), V('X')], ['true']])
+    # every ordered pair of different members
+    clauses.append(['t', [V('X'), V('Y')], conj([call('k', V('X')), call('k', V('Y')), call('\\=', V('X'), V('Y'))])])
+    clauses.append(['e', [V('X'), V('Y')], conj([call('k', V('X')), call('k', V('Y')), call('same', V('X'), V('Y'))])])
+    i, j = rng.sample(range(len(g)), 2)
+    clauses.append(['u', [V('X')], conj([eq(V('X'), at[i]), eq(V('X'), at[j])])])                        # no answer
+    clauses.append(['w', [V('R')], ite(eq(at[i], at[j]), eq(V('R'), A('same')), eq(V('R'), A('diff')))])
+    clauses.append(['zz', [V('I'), V('J')], conj([call('z', F(g[i], V('I'))), call('z', F(g[j], V('J')))])])
+    clauses.append(['m', [V('X'), V('R')], conj([call('l', V('L')), eq(V('L'), ['pair', V('X'), V('R')])])])
+    # a clause per member with the member in the head: first-argument dispatch
+    for n_, a in zip(g, at):
+        clauses.append(['h', [a, A('is_' + str(g.index(n_)))], ['true']])
+    queries = [['k', [V('Q0')]], ['t', [V('Q0'), V('Q1')]], ['e', [V('Q0'), V('Q1')]], ['u', [V('Q0')]], ['w', [V('Q0')]], ['zz', [V('Q0'), V('Q1')]],
+               ['m', [V('Q0'), V('Q1')]], ['h', [V('Q0'), V('Q1')]], ['h', [at[j], V('Q0')]], ['k', [at[i]]], ['z', [F(g[j], V('Q0'))]]]
+    return {'clauses': clauses, 'queries': queries, 'shape': 'mangled-atoms'}
